@@ -625,3 +625,58 @@ def record_boundaries(stream: bytes):
         pos += 5 + ln
         out.append((pos, stream[pos - 5 - ln]))
     return out
+
+
+# ------------------------------------------------------------------ blocking transport, several threads
+
+import threading as _threading
+
+
+class ThreadRawSSLProxy:
+    """Stands in for SSLSocket._sslobj: records [thread tag, method, outcome, value] of every raw call and serialises
+    the calls (CPython 3.12's _ssl has no per-object lock; OpenSSL objects must not be entered concurrently)."""
+
+    def __init__(self, real, log, tags):
+        object.__setattr__(self, "_real", real)
+        object.__setattr__(self, "_log", log)
+        object.__setattr__(self, "_tags", tags)
+        object.__setattr__(self, "_mutex", _threading.Lock())
+
+    def _call(self, m, fn, *args):
+        tag = self._tags.get(_threading.get_ident(), 0)
+        with self._mutex:
+            try:
+                r = fn(*args)
+            except BaseException as exc:
+                self._log.append([tag, m, classify(exc), 0])
+                raise
+            self._log.append([tag, m, O_OK, len(r) if isinstance(r, (bytes, bytearray)) else r if isinstance(r, int) else 0])
+            return r
+
+    def do_handshake(self):
+        return self._call(M_HANDSHAKE, self._real.do_handshake)
+
+    def read(self, *args):
+        return self._call(M_READ, self._real.read, *args)
+
+    def write(self, data):
+        return self._call(M_WRITE, self._real.write, data)
+
+    def shutdown(self):
+        return self._call(M_UNWRAP, self._real.shutdown)
+
+    def __getattr__(self, name):
+        return getattr(self._real, name)
+
+    def __setattr__(self, name, value):
+        setattr(self._real, name, value)
+
+
+class ThreadRawRecContext:
+    def __init__(self, real, log, tags):
+        self.real, self.log, self.tags = real, log, tags
+
+    def wrap_socket(self, sock, **kw):
+        s = self.real.wrap_socket(sock, **kw)
+        s._sslobj = ThreadRawSSLProxy(s._sslobj, self.log, self.tags)
+        return s
